@@ -26,6 +26,8 @@ def EffOK (kd : Kind) (s : State) : Eff → Prop
   | .writeB b v => (∃ x, s.xs x = some b) ∧ (kd = .dyn ∨ v.length = (s.read b).length)
   | .bindA _ v => ViewOK s v ∧ kd.isFv = true
   | .newA _ _ => True
+  | .newAV _ mem off step len _ =>
+    step ≠ 0 ∧ ∀ j, j < len → 0 ≤ off + (j : Int) * step ∧ off + (j : Int) * step < (mem.length : Int)
   | .writeCell v p _ => (∃ a, s.arrs a = some v) ∧ p < v.len
   | .writeView v vals => (∃ a, s.arrs a = some v) ∧ vals.length = v.len
 
@@ -240,6 +242,21 @@ theorem apply_inv (kd : Kind) (s : State) (e : Eff) (h : Inv kd s) (he : EffOK k
       rw [alloc_xs] at hx
       have := h.xs_lt x _ hx
       simp only [fullView, alloc_fresh] at this
+      omega
+  | newAV a mem off step len dt =>
+    simp only [Eff.apply]
+    have h1 := inv_alloc kd s mem h
+    refine inv_bindA kd _ a _ h1 ?_ ?_
+    · have hb : (s.alloc mem).2 < (s.alloc mem).1.blocks.length := by
+        rw [alloc_blocks_length, alloc_fresh]; omega
+      refine ⟨hb, he.1, ?_⟩
+      intro j hj
+      simp only [read_alloc_new]
+      exact he.2 j hj
+    · intro _ x hx
+      rw [alloc_xs] at hx
+      have := h.xs_lt x _ hx
+      simp only [alloc_fresh] at this
       omega
   | writeCell v p k =>
     obtain ⟨⟨a, ha⟩, _⟩ := he
